@@ -817,7 +817,7 @@ class Notes:
                 continue
             ok = False
             m1 = match(("attr", ("call", ("builtin", "max"), (NE,), (("key", H("k")),)), "end_timestamp"), v)
-            if m1 is not None and m1["k"][0] == "closure":
+            if m1 is not None and m1["k"][0] in ("closure", "func"):  # a lambda or a named single-expression key function
                 lf = ctx.prog.lambdas.get(m1["k"][1]) or ctx.prog.functions.get(m1["k"][1])
                 if lf is not None:
                     lr = ctx.ev.summary(lf).ret_term()
